@@ -72,7 +72,7 @@ def replay_consts(ctx):
     # offset classes in skews: 0, 1, just below / at / above the bucket width (the offset is taken modulo the
     # validity, which is two skews longer than a bucket), the last one, the middle
     offs = {0, 1, 167, W // K - 1, W // K, VU - 1}
-    while len(offs) < (24 if thorough else 12):
+    while len(offs) < (24 if thorough else 10):
         offs.add(rnd.randrange(VU))
     # positions (ticks after a bucket start p): p-1ms..p+1ms, the switch instant p+skew (-1ms, +1ms), the
     # predecessor's NotAfter p+2*skew (-1ms, +1ms), the middle, and seed-dependent ones
